@@ -465,6 +465,12 @@ where
             res = txs_receiver.receive() => res,
         };
         let tx = res.expect("receiving tx");
+        // NOTE: The network only limits a transaction to the size of a datagram.
+        // The space accounting below relies on the documented transaction size limit.
+        if tx.0.len() > MAX_TRANSACTION_SIZE {
+            warn!("dropping transaction of {} bytes, above size limit", tx.0.len());
+            continue;
+        }
         tx_count += 1;
         wincode::serialize_into(&mut buffer, &tx)
             .expect("serializing transaction into buffer should not fail");
